@@ -322,13 +322,13 @@ package decoder
 // ---- element written before the cursor.
 
 // ---- C10/C13: arguments of a known function are visited whenever the function takes any parameter, fixed
-// ---- or variadic (a return in front of the argument loop - where the loop counter does not exist yet - is
-// ---- allowed only for parameterless functions); argument i is read against parameter i, or the variadic one.
+// ---- or variadic (a return in front of the argument loop is allowed only for
+// ---- parameterless functions); argument i is read against parameter i, or the variadic one.
 //@ contract (decoder.functionExpr).ReferenceOrigins (fe, ctx) (result)
-//@   ensures [C10] implies(haskey(fe.pathCtx.Functions, funcExpr.Name) && (len(funcSig.Params) > 0 || funcSig.VarParam != nil), rangeindex == rangeindex)
+//@   ensures [C10] implies(haskey(fe.pathCtx.Functions, funcExpr.Name) && (len(funcSig.Params) > 0 || funcSig.VarParam != nil), pastloop(1))
 //@   assert before (decoder.Any).ReferenceOrigins#1 : [C10] arg0.expr == arg && arg0.cons.OfType == ite(i < paramsLen, funcSig.Params[i].Type, funcSig.VarParam.Type)
 //@ contract (decoder.functionExpr).SemanticTokens (fe, ctx) (result)
-//@   ensures [C13] implies(haskey(fe.pathCtx.Functions, funcExpr.Name) && (len(funcSig.Params) > 0 || funcSig.VarParam != nil), rangeindex == rangeindex)
+//@   ensures [C13] implies(haskey(fe.pathCtx.Functions, funcExpr.Name) && (len(funcSig.Params) > 0 || funcSig.VarParam != nil), pastloop(1))
 
 // ---- C10/C13: a handled for / conditional expression has every one of its sub-expressions visited, each as
 // ---- the expression it is (ghosts are true only if their call site was reached).
